@@ -1,3 +1,4 @@
+\* trace validation: worker ids up to 64, any number of tasks; TRACE=<ndjson> in the environment, -workers 1.
 CONSTANTS MaxWorkers = 64
           MaxTasks = 1000000
 SPECIFICATION TSpec
